@@ -363,6 +363,10 @@ class TransferManager(BaseManager):
         except Exception:
             logger.exception("error aborting transfer before removal : %s", transfer)
         finally:
+            # A transfer that could not be aborted can still have a task
+            # running (an attempt to queue a meanwhile failed or completed
+            # download remotely): nothing should be done for a removed transfer
+            transfer.cancel_tasks()
             self._transfers.remove(transfer)
             await self._event_bus.emit(TransferRemovedEvent(transfer))
 
